@@ -234,7 +234,7 @@ pub fn c07(a: &Args, rep: &mut Report) {
     rep.assumptions = vec!["the full build of the same input is the oracle (C01 judges the full build)".into()];
     let szs = sizes(a);
     let thorough = a.tier == "thorough";
-    let n = ncases(a, 6000, 100000);
+    let n = ncases(a, 24000, 200000);
     run_parallel(rep, n, budget(a, 100., 900.), |k, rep| {
         let o = GenOpts {
             sizes: &szs,
@@ -377,7 +377,7 @@ pub fn c12(a: &Args, rep: &mut Report) {
     rep.rule = "cases = seeded inputs of the conditioned families x dimensionality x periodic flag, two thirds with masks (all mask shapes; all 2^n masks for small n), walked through both construction routes; distinct = distinct hash of (input, mask); non-trivial = the tessellation stores at least one face".into();
     rep.assumptions = vec![];
     let szs = sizes(a);
-    let n = ncases(a, 12000, 300000);
+    let n = ncases(a, 48000, 400000);
     run_parallel(rep, n, budget(a, 100., 900.), |k, rep| {
         let o = GenOpts {
             sizes: &szs,
@@ -540,7 +540,7 @@ pub fn c13(a: &Args, rep: &mut Report) {
     rep.rule = "cases = seeded inputs of the conditioned families x dimensionality x periodic flag, half with masks, built through Voronoi::build[_partial], VoronoiIntegrator::build -> Voronoi::from and (3D) with_faces -> Voronoi::from; distinct = distinct hash of (input, mask); non-trivial = at least one face stored".into();
     rep.assumptions = vec![];
     let szs = sizes(a);
-    let n = ncases(a, 6000, 100000);
+    let n = ncases(a, 24000, 200000);
     run_parallel(rep, n, budget(a, 100., 900.), |k, rep| {
         let o = GenOpts {
             sizes: &szs,
